@@ -17,7 +17,7 @@ EXPLANATION = (
 ASSUMPTIONS = ["pika::memory::intrusive_ptr copy/move/assign only affect the token reference count (intrusive_ptr_add_ref/release)",
                "std::atomic operations are the only accesses to state_"]
 THOROUGH_CONFIGS = [["-UNDEBUG", "-DPIKA_DEBUG"]]
-FLOORS = {"C14.R9": 12, "C14.R1": 6, "C14.R2": 6, "C14.R3": 5, "C14.R4": 8, "C14.R5": 6, "C14.R6": 4, "C14.R7": 8, "C14.R8": 3}
+FLOORS = {"C14.R10": 5, "C14.R9": 12, "C14.R1": 6, "C14.R2": 6, "C14.R3": 5, "C14.R4": 8, "C14.R5": 6, "C14.R6": 4, "C14.R7": 8, "C14.R8": 3}
 
 SS = "pika::detail::stop_state"
 TRY_GUARDS = ("pika::detail::scoped_lock_if_not_stopped", "pika::detail::scoped_lock_and_request_stop")
@@ -46,6 +46,11 @@ def run(rep, tier):
              "is reported as true (the caller's guard unlocks only then), a seen stop request makes lock_if_not_stopped run the callback, publish "
              "finished=true and return false; add_callback links the callback exactly on the paths that return true; remove_callback writes through "
              "is_removed_ only when it is set")
+    rep.rule("C14.R10", "K8 (list invariant: a node's prev_ is the address of the link that points at it): whenever add_this_callback, remove_this_callback or "
+             "request_stop's dequeue make a forward link (callbacks_ / next_ / *prev_) point at a node N, N->prev_ is set to the address of that link before the "
+             "stop-state lock is released or the function returns (N == nullptr excepted); the dequeued callback is marked unlinked (prev_ = nullptr). "
+             "Otherwise a later remove_callback unlinks through a stale address - it writes into another (possibly destroyed) callback and leaves the node in "
+             "the list: request_stop runs a callback whose destructor has returned")
     rep.rule("C14.R2", "K4: every CAS on state_ in lock_and_request_stop/lock_if_not_stopped sees !stop_requested(word) established since the word's last (re)load; flags ORed as required; true only after CAS success")
     rep.rule("C14.R3", "K1: callbacks_ accessed and list helpers called only with the stop_state lock held")
     rep.rule("C14.R4", "K2/K6: callbacks run unlocked after being unlinked; finished flag published with release; execute() only from the three known sites; remove_callback waits unless on the signalling thread")
@@ -367,6 +372,9 @@ def run(rep, tier):
     # ---- R9: loops poll fresh words, results agree with what was done
     r9_rules(rep, F, get)
 
+    # ---- R10: the callback list stays a consistent doubly-linked list
+    r10_rules(rep, F, get)
+
     # ---- R5 special members of stop_source
     srec = F.record("pika::stop_source")
     if not srec:
@@ -659,3 +667,73 @@ def r9_rules(rep, F, get):
         else:
             rep.bad("C14.R9", rc, loc_of(e), "removed-flag-write", "remove_callback writes %s through is_removed_ %s" % (T(strip(e["rhs"])), "without having seen it non-null "
                     "(null dereference when the callback is not executing / flag not set when it is)" if not nonnull else "(must be true)"))
+
+
+def r10_rules(rep, F, get):
+    CBB = "pika::detail::stop_callback_base"
+
+    def backlink(fn, what, fwd, back, null_atoms, barriers=lambda e: False):
+        """may-analysis: 'dirty' from a forward-link write `fwd` until the matching back-link write `back` or an edge that
+        establishes that the new target is null; reaching a barrier event or the exit while dirty is a violation"""
+        ff = FactFlow(fn)
+        fpos = [(b, i, e) for b, i, e in fn.all_events() if fwd(e)]
+        if not fpos:
+            raise AnalysisBroken("%s: forward-link write (%s) not found" % (fn.qname, what))
+        fset = set((b, i) for b, i, e in fpos)
+        bset = set((b, i) for b, i, e in fn.all_events() if back(e))
+
+        def tr(st, ev, pos):
+            if pos in fset:
+                return frozenset(["dirty"])
+            if pos in bset:
+                return frozenset()
+            return st
+
+        def ed(st, blk, lab, cond):
+            if st and any(t and a in null_atoms for a, t in ff.edge_facts(blk, lab)):
+                return frozenset()
+            return st
+        before, bin_, _ = forward(fn, frozenset(), tr, ed, lambda a, b: a | b)
+        probs = []
+        for b, i, e in fn.all_events():
+            if barriers(e) and "dirty" in (before.get((b, i)) or ()):
+                probs.append(loc_of(e))
+        if "dirty" in (bin_.get(fn.exit) or ()):
+            probs.append("function exit")
+        if probs:
+            rep.bad("C14.R10", fn, loc_of(fpos[0][2]), "backlink:" + what, "%s: after %s the new target's prev_ is not re-pointed at that link on every path before %s"
+                    % (fn.qname, what, probs[0]))
+        else:
+            rep.ok("C14.R10", fn, "%s: the target's prev_ is re-pointed (or the target is null) before the lock is released / the function returns" % what)
+
+    w = lambda e, lhs, rhs=None: e.get("k") == "write" and e.get("op") == "=" and P(e["lhs"]) == lhs and (rhs is None or T(strip(e["rhs"])) == rhs)
+    # add_this_callback(callbacks): next_ = callbacks; next_->prev_ = &next_; prev_ = &callbacks; callbacks = this
+    at = get(CBB + "::add_this_callback")
+    head = [p_["name"] for p_ in at.params]
+    if len(head) != 1:
+        raise AnalysisBroken("add_this_callback: expected one parameter (the list head)")
+    H = head[0]
+    backlink(at, "next_ = <old head>", lambda e: w(e, "this->next_"), lambda e: w(e, "this->next_->prev_", "&this->next_"), {"nullptr == this->next_"})
+    linked = [(b, i, e) for b, i, e in at.all_events() if w(e, H, "this")]
+    own = [(b, i, e) for b, i, e in at.all_events() if w(e, "this->prev_", "&" + H)]
+    if linked and own:
+        rep.ok("C14.R10", at, "the new head's prev_ is the address of the list head")
+    else:
+        rep.bad("C14.R10", at, at.loc, "head-link", "add_this_callback must make the head point at this node and this node's prev_ point at the head (head = this: %s, "
+                "prev_ = &head: %s)" % (bool(linked), bool(own)))
+    # remove_this_callback: *prev_ = next_; next_->prev_ = prev_
+    rt = get(CBB + "::remove_this_callback")
+    backlink(rt, "*prev_ = next_", lambda e: w(e, "*this->prev_", "this->next_"), lambda e: w(e, "this->next_->prev_", "this->prev_"), {"nullptr == this->next_"})
+    # request_stop: callbacks_ = cb->next_; callbacks_->prev_ = &callbacks_; cb->prev_ = nullptr  - all before unlock_guard / execute
+    rs = get("pika::detail::stop_state::request_stop")
+    is_bar = lambda e: (e.get("k") == "ctor" and e.get("rec") == "pika::detail::unlock_guard") or (e.get("k") == "call" and callee_short(e) == "execute")
+    backlink(rs, "callbacks_ = <next of the dequeued callback>", lambda e: w(e, "this->callbacks_"),
+             lambda e: w(e, "this->callbacks_->prev_", "&this->callbacks_"), {"nullptr == this->callbacks_"}, is_bar)
+    cbs = [e["var"] for _, _, e in rs.all_events() if e.get("k") == "decl" and e.get("init") is not None and T(strip(e["init"])) == "this->callbacks_"]
+    exs = [(b, i, e) for b, i, e in rs.all_events() if e.get("k") == "call" and callee_short(e) == "execute"]
+    from engine.kinds import precedes_on_all_paths as ppa
+    if cbs and exs and all(ppa(rs, lambda e: w(e, cbs[0] + "->prev_", "nullptr"), (b, i)) for b, i, e in exs):
+        rep.ok("C14.R10", rs, "the dequeued callback is marked unlinked (prev_ = nullptr) before it runs")
+    else:
+        rep.bad("C14.R10", rs, rs.loc, "dequeued-not-marked", "request_stop runs a dequeued callback without marking it unlinked (prev_ = nullptr): its destructor unlinks it a second "
+                "time through a stale address instead of waiting for the callback to finish")
